@@ -1451,6 +1451,11 @@ func gridLayout(context *layoutContext, box_ Box, bottomSpace pr.Float, skipStac
 			if i == 0 {
 				return nil, blockLayout{nil, nil, tree.PageBreak{Break: "any"}, false}
 			}
+			if pageIsEmpty && i-1 <= skipRow {
+				// The first row of this page is taller than the page: keep it
+				// anyway, otherwise the same row would be tried on every next page.
+				continue
+			}
 			resumeRow = i - 1
 			resumeAt = tree.ResumeStack{i - 1: nil}
 			for _, child := range children {
